@@ -55,6 +55,9 @@ pub struct Task {
     spinner: bool,
     spin_epoch: u64,
     pub polls: u64,
+    /// executor step at which the task finished (completed or panicked)
+    pub done_step: Option<u64>,
+    pub spawn_step: u64,
 }
 
 #[derive(Debug)]
@@ -327,6 +330,8 @@ impl World {
             spinner: false,
             spin_epoch: 0,
             polls: 0,
+            done_step: None,
+            spawn_step: self.steps,
         });
         self.effects += 1;
         self.ev("spawn", id as u64, 0);
@@ -918,6 +923,7 @@ fn poll_task(id: usize) {
                 let woken = w.drain_wakes();
                 w.apply_wakes(&woken);
                 w.tasks[id].state = TaskState::Done;
+                w.tasks[id].done_step = Some(w.steps);
                 w.tasks[id].spinner = false;
                 w.progress += 1;
                 w.current_task = None;
@@ -937,6 +943,7 @@ fn poll_task(id: usize) {
                 };
                 w.note(&format!("panic task={} {}:{} {}", id, file, line, message));
                 w.tasks[id].state = TaskState::Panicked { file, line, message };
+                w.tasks[id].done_step = Some(w.steps);
                 w.tasks[id].spinner = false;
                 w.progress += 1;
                 w.current_task = None;
